@@ -74,6 +74,8 @@ def run_property(prop, tier, repo, seed, write=True, quiet=False):
         ctx = Ctx(facts, tier=tier, meta=meta)
         ctx.seed = seed
         insts = list(mod.run(ctx))
+        if tier == 'thorough' and hasattr(mod, 'run_thorough'):
+            insts += list(mod.run_thorough(ctx))
         # fixtures: positive examples for zero-expected rules
         if getattr(mod, 'FIXTURE_RULES', None):
             ffacts, fmeta = extract.extract(os.path.join(VERIF, 'fixtures', 'forbidden'), crate='kfix_forbidden',
@@ -90,7 +92,9 @@ def run_property(prop, tier, repo, seed, write=True, quiet=False):
         engine_errors.append('internal error:\n' + traceback.format_exc())
 
     # floors
-    floors = getattr(mod, 'FLOORS', {})
+    floors = dict(getattr(mod, 'FLOORS', {}))
+    if tier == 'thorough':
+        floors.update(getattr(mod, 'THOROUGH_FLOORS', {}))
     counts = {}
     for i in insts:
         counts[i['rule']] = counts.get(i['rule'], 0) + 1
